@@ -1181,6 +1181,7 @@ fn run_case(id: &str, mask: u32, n0: u32, ops: &mut dyn FnMut(&CMap2<f64>, usize
                 roundtrip(&m, &mut line);
             } else {
                 dump2(&m, mask, &mut line);
+                mark_dump_panics(id, k, &mut line);
             }
             writeln!(out.obs, "{line}").unwrap();
             line.clear();
